@@ -70,6 +70,26 @@ Proof.
   exact (eval_confined tables names gen_policy_sound t locals Hl (subset_incl _ _ gen_funcs_in_env) W V).
 Qed.
 
+(* ... and WHATEVER variables the caller supplies (also none of the declared ones): the evaluator's environment carries an empty
+   __builtins__ (fact read from ExpressionEvaluator.__init__ on this run; hard obligation), so a name found neither among the
+   supplied variables nor among the whitelisted functions is unbound (NameError), never the interpreter's builtin of that name *)
+Lemma gen_builtins_blocked : builtins_blocked = true.
+Proof. reflexivity. Qed.
+Theorem C11_eval_confined_whatever_is_supplied :
+  forall locals n, resolve_b builtins_blocked locals (env_keys tables) n <> Builtin.
+Proof.
+  intros locals n. rewrite gen_builtins_blocked. unfold resolve_b. destruct (resolve locals (env_keys tables) n); discriminate.
+Qed.
+(* without the empty __builtins__: the accepted expression `open` with the declared variable `open`, called without it *)
+Theorem C11_eval_confined_refuted_when :
+  builtins_blocked = false ->
+  exists names locals t, wfb false t = true /\ visit tables names t = true /\
+    exists n, In n (lookups t) /\ resolve_b builtins_blocked locals (env_keys tables) n = Builtin.
+Proof.
+  intros H. rewrite H. exists ["open"], [], (T "Name" "open" [("ctx", [T "Load" "" []])]).
+  split; [reflexivity|]. split; [vm_compute; reflexivity|]. exists "open". split; [vm_compute; auto|vm_compute; reflexivity].
+Qed.
+
 (* Non-vacuity: a non-trivial accepted expression, and rejected escapes. *)
 Definition nm (x : string) := T "Name" x [("ctx", [T "Load" "" []])].
 Definition ex_ok : tree :=  (* max(a * 2, abs(b)) if a < b else -a *)
@@ -91,3 +111,5 @@ Print Assumptions C11_accept_whitelisted.
 Print Assumptions C11_accept_calls.
 Print Assumptions C11_accept_names.
 Print Assumptions C11_eval_confined.
+Print Assumptions C11_eval_confined_whatever_is_supplied.
+Print Assumptions C11_eval_confined_refuted_when.
